@@ -129,9 +129,18 @@ def run_case(case):
         finally:
             sim.percolate_network = orig
         if len(captured) != 1:
-            res['inconclusive'] = 'estimate_SIR_prob_size does not build its graph through percolate_network'
-            return res
-        H = captured[0]
+            if not captured and case['p'] in (0, 1):
+                # no percolated network was built: legitimate only where it is deterministic (p = 0: no edge kept, p = 1: all kept)
+                H = nx.Graph()
+                H.add_nodes_from(G)
+                if case['p'] == 1:
+                    H.add_edges_from(G.edges())
+                bump(res, 'est_deterministic_without_builder')
+            else:
+                res['inconclusive'] = 'estimate_SIR_prob_size does not build its graph through percolate_network'
+                return res
+        else:
+            H = captured[0]
         bump(res, 'est_checked')
         und = {(u, v): 1 for u, v in H.edges()}
         und.update({(v, u): 1 for u, v in H.edges()})
